@@ -116,11 +116,17 @@ def run_verus_unit(unit, tier, rlimit=None):
         msg = d["message"]
         sp = next((s for s in d.get("spans", []) if s.get("is_primary")), d["spans"][0] if d.get("spans") else None)
         line = sp["line_start"] if sp else 0
-        fn = next((n for (n, a_, b_) in spans if a_ <= line <= b_), "?")
-        # innermost span
-        inner = [(n, a_, b_) for (n, a_, b_) in spans if a_ <= line <= b_]
-        if inner: fn = sorted(inner, key=lambda x: x[2] - x[1])[0][0]
+        fn = "?"
+        for fm in a["functions"]:
+            if fm.get("out_first", 0) <= line <= fm.get("out_last", -1): fn = fm["name"]
+            elif fm.get("out_last", 0) < line <= fm.get("chunk_last", -1): fn = fm["name"] + "__vac"
+        if fn == "?":
+            inner = [(n, a_, b_) for (n, a_, b_) in spans if a_ <= line <= b_]
+            if inner: fn = sorted(inner, key=lambda x: x[2] - x[1])[0][0]
         src = a["linemap"].get(line)
+        if src is None:
+            fm = next((x for x in a["functions"] if x["name"] == fn), None)
+            if fm: src = (fm["file"], fm["line"])
         allsp = [dict(line=s["line_start"], text=(s["text"][0]["text"].strip() if s.get("text") else ""), label=s.get("label"),
                       src=a["linemap"].get(s["line_start"])) for s in d.get("spans", [])]
         rec = dict(unit=unit, function=fn, message=msg, line=line, src=src, spans=allsp, rendered=d.get("rendered", "")[:3000])
